@@ -425,6 +425,14 @@ pub fn start_opts(
             default_handler_task_mode: mode,
             log_headers: vec![],
         };
+        // every other server is configured the way deployments are: from a serialised
+        // configuration (written out as JSON and read back), which must say the same
+        let config = if ctx.id % 2 == 0 {
+            let text = serde_json::to_string(&config).expect("configuration serialises");
+            serde_json::from_str::<ConfigDropshot>(&text).expect("configuration reads back")
+        } else {
+            config
+        };
         match ServerBuilder::new(api(), ctx.clone(), log).config(config).tls(tls.clone()).start() {
             Ok(s) => return s,
             Err(e) => {
